@@ -23,7 +23,7 @@ func runRandomL1(rep *Report, tt *termTable, seed uint64, firstID, n, length int
 	var texts []string
 	step := l1StepHook
 	for k := 0; k < n; k++ {
-		c := RunL1Twice(seed*100000+uint64(k), firstID+k, func(sc *L1Scenario) {
+		c := runL1TwicePrep(seed*100000+uint64(k), firstID+k, nil, func(sc *L1Scenario) {
 			sc.wts = w
 			if setup != nil {
 				setup(sc)
@@ -104,6 +104,9 @@ func c11Step(sc *L1Scenario) {
 func twoBridgeSetup(p1, p2 int64) func(sc *L1Scenario) {
 	return func(sc *L1Scenario) {
 		e := sc.Env
+		if sc.R.Chance(75) { // the two ids are first allocated with other configs on a discarded branch
+			speculate(sc, otherPeriod(p1), otherPeriod(p2))
+		}
 		sc.Case.Do(sc.Create(e.User(7).Str, sc.NewConfig(1, 2, p1)))
 		sc.Case.Do(sc.Create(e.User(7).Str, sc.NewConfig(3, 4, p2)))
 	}
